@@ -31,6 +31,40 @@ VALID_TREE = {
 }
 
 
+# trees whose import paths can be confused with one another by a careless "already processed" test: names equal up to letter case,
+# the same base name in two directories, a name that is a prefix of another, the same file imported twice
+CONFUSABLE_TREES = {
+	'case-only': {
+		'root.cats': 'import "common/types.cats"\nimport "common/Types.cats"\n\nstruct Root\n\tamount = Amount\n\tweight = Weight\n',
+		'common/types.cats': 'using Amount = uint64\n',
+		'common/Types.cats': 'using Weight = uint16\n',
+	},
+	'case-only-directory': {
+		'root.cats': 'import "middle.cats"\n\nstruct Root\n\tamount = Amount\n\tweight = Weight\n',
+		'middle.cats': 'import "common/types.cats"\nimport "Common/types.cats"\n\nusing Key = binary_fixed(32)\n',
+		'common/types.cats': 'using Amount = uint64\n',
+		'Common/types.cats': 'using Weight = uint16\n',
+	},
+	'same-base-name': {
+		'root.cats': 'import "alpha/types.cats"\nimport "beta/types.cats"\n\nstruct Root\n\tamount = Amount\n\tweight = Weight\n',
+		'alpha/types.cats': 'using Amount = uint64\n',
+		'beta/types.cats': 'using Weight = uint16\n',
+	},
+	'prefix-name': {
+		'root.cats': 'import "type.cats"\nimport "types.cats"\nimport "types.cats.cats"\n\nstruct Root\n\tamount = Amount\n\tweight = Weight\n\tkey = Key\n',
+		'type.cats': 'using Amount = uint64\n',
+		'types.cats': 'using Weight = uint16\n',
+		'types.cats.cats': 'using Key = binary_fixed(32)\n',
+	},
+	'imported-twice': {
+		'root.cats': 'import "left.cats"\nimport "right.cats"\n\nstruct Root\n\tleft = Left\n\tright = Right\n',
+		'left.cats': 'import "leaf.cats"\n\nstruct Left\n\tamount = Amount\n',
+		'right.cats': 'import "leaf.cats"\n\nstruct Right\n\tamount = Amount\n',
+		'leaf.cats': 'using Amount = uint64\n',
+	},
+}
+
+
 def cli_run(files, scratch, tag):
 	"""Runs `python -m catparser` on a schema tree; returns (exit status, output exists, tail of the output)."""
 	root = scratch / tag
@@ -118,6 +152,29 @@ def run(check, unrecognised):
 					f'output file {"written" if exists else "absent"}',
 					{'case': {'cli': True, 'files': files, 'file': name, 'operator': operator, 'site': site},
 						'how': 'run.py replay <this file>: writes the tree to a scratch directory and runs python -m catparser'})
+		# every file of every confusable tree, corrupted in turn (the others intact)
+		for tree_name, tree in CONFUSABLE_TREES.items():
+			status, exists, tail = cli_run(tree, scratch, f'control-{tree_name}')
+			check.case('cli:control', tree_name)
+			if status != 0 or not exists:
+				check.fail(f'cli:control:{tree_name}', f'python -m catparser refuses the well-formed tree `{tree_name}`: exit {status}: {tail[-200:]}',
+					{'case': {'cli': True, 'files': tree, 'file': None, 'operator': None, 'site': None, 'expect': 'accepted'}})
+				continue
+			for name in sorted(tree):
+				options = list(c04.corruptions(tree[name], rng, 1))
+				if not options:
+					continue
+				operator, site, bad_text = options[0] if quick else rng.choice(options)
+				files = dict(tree)
+				files[name] = bad_text
+				status, exists, tail = cli_run(files, scratch, f'confusable-{tree_name}')
+				check.case(f'cli:{tree_name}:{name}:{operator}', f'{tree_name}:{name}:{operator}:{site}')
+				if status == 0 or status is None or exists:
+					check.fail(f'cli:{operator}:{"exit-0" if status == 0 else "output-written" if exists else "timeout"}',
+						f'python -m catparser on the tree `{tree_name}` whose file {name} is corrupted by `{operator}` at line {site + 1}: '
+						f'exit status {status}, output file {"written" if exists else "absent"}',
+						{'case': {'cli': True, 'files': files, 'file': name, 'operator': operator, 'site': site},
+							'how': 'run.py replay <this file>: writes the tree to a scratch directory and runs python -m catparser'})
 	finally:
 		shutil.rmtree(scratch, ignore_errors=True)
 
@@ -132,6 +189,10 @@ def replay(data):
 			shutil.rmtree(scratch, ignore_errors=True)
 		print(f'exit status {status}, output file {"written" if exists else "absent"}')
 		print(tail)
+		if case.get('expect') == 'accepted':
+			bad = status != 0 or not exists
+			print('property:', 'fails (a well-formed tree is refused)' if bad else 'holds')
+			return 1 if bad else 0
 		bad = status == 0 or exists
 		print('property:', 'fails' if bad else 'holds')
 		return 1 if bad else 0
